@@ -35,6 +35,11 @@ OPS = [
     {'kind': 'moment', 'dist': 'tree_height', 'k': 3, 'center': True},
     {'kind': 'attr', 'path': 'tree_height.m2'}, {'kind': 'attr', 'path': 'total_branch_length.var'},
     {'kind': 'moment', 'dist': 'tree_height', 'k': 2, 'center': False},
+    # cross moments of two DIFFERENT rewards on a persistent distribution object (averaged over the reward orderings)
+    {'kind': 'moment', 'dist': 'tree_height', 'k': 2, 'rewards': [['TreeHeight'], ['TotalBranchLength']], 'center': True},
+    {'kind': 'moment', 'dist': 'tree_height', 'k': 2, 'rewards': [['TreeHeight'], ['TotalBranchLength']], 'center': False},
+    {'kind': 'moment', 'dist': 'tree_height', 'k': 2, 'rewards': [['TotalBranchLength'], ['TreeHeight']], 'center': False},
+    {'kind': 'accumulate', 'dist': 'total_branch_length', 'k': 2, 'ts': [1.0, 2.5], 'rewards': [['TreeHeight'], ['TotalBranchLength']], 'center': False},
 ]
 
 
@@ -86,6 +91,17 @@ def run(res, replay=None):
             {'kind': 'accumulate', 'dist': 'tree_height', 'k': 2, 'ts': [1.0, 2.0], 'center': True, 'permute': False},
             {'kind': 'accumulate', 'dist': 'tree_height', 'k': 2, 'ts': [1.0, 2.0], 'center': False},
             A('sfs.corr'), A('sfs.cov'), A('fsfs.corr'), A('fsfs.cov'), A('fsfs.var')]})
+        # designed: cross moments of two different rewards asked repeatedly of one distribution object (centred, raw, the rewards
+        # in the other order, the same accumulation twice), then the matrices that share their memo entries
+        HL = [['TreeHeight'], ['TotalBranchLength']]
+        s2 = gen.rand_spec(rng, n_total=rng.choice([3, 4]), n_demes=2, n_epochs=2, end_time='never')
+        p2 = [p for p, _ in s2['n_items']]
+        cases.append({'spec': s2, 'cache': True, 'parallelize': False, 'ops': [
+            M('tree_height', rewards=HL, center=True), M('tree_height', rewards=HL, center=False), M('tree_height', rewards=HL[::-1], center=False),
+            {'kind': 'accumulate', 'dist': 'tree_height', 'k': 2, 'ts': [1.0, 2.0], 'rewards': HL, 'center': False},
+            {'kind': 'accumulate', 'dist': 'tree_height', 'k': 2, 'ts': [1.0, 2.0], 'rewards': HL, 'center': False},
+            A('sfs.cov'), A('sfs.cov'), A('tree_height.demes.cov'), A(f"tree_height.demes['{p2[0]}'].var"), A('tree_height.demes.cov'),
+            A('tree_height.var'), A('total_branch_length.var')]})
     outs = C.run_impl_parallel('histories.py', [{'cases': [c]} for c in cases], timeout=2400)
     bodies, keep = [], []
     for i, (c, o) in enumerate(zip(cases, outs)):
